@@ -93,11 +93,15 @@ func genC03(g *gen) {
 	z := zeroKey()
 	g.op("dl.new z %s", hx(make([]byte, 48)))
 	g.op("dl.filled %s", hx(make([]byte, 48)))
-	corpus := loadCorpus("corner-pos", "corner-neg-zero", "corner-neg-nonzero", "hint-75", "hint-reject-edge", "z-accept-edge", "w0-accept-edge", "empty-hint-row")
+	corpus := loadCorpus("corner-pos", "corner-neg-zero", "corner-neg-nonzero", "hint-75", "hint-reject-edge", "z-accept-edge", "w0-accept-edge", "empty-hint-row",
+		"many-attempts", "nonce-ge-256", "attempts-ge-45", "attempts-ge-50")
 	for kind, msgs := range corpus {
 		lim := 1
 		if g.thorough {
 			lim = 4
+		}
+		if strings.Contains(kind, "attempts") || kind == "nonce-ge-256" {
+			lim = 0 // 15 … 54 iterations of the rejection loop: implementation only (about a second each in the Lean model)
 		}
 		for i, m := range msgs {
 			g.signVerifyRoundtrip("z", z, m, i < lim)
